@@ -23,14 +23,14 @@
         executes [tgData[0] = nil], also the ones that end the loop;
       - a failed TGDATA read that does not end the loop (insane length, checksum mismatch) continues to
         the duplicate test with tgID 0: the SECOND such failure returns ReplayError "Duplicate TG Data";
-      - after the sanity test only [tgLen < 1000*size] is known: a negative tgLen panics in make, a tgLen
-        of 0..6 (with that many bytes available) panics in tgSerialized[:7]  (classes 1, 2);
-      - wal.Read returns a nil slice on EOF and wal.ReadStatus indexes it: a STATUS message id as the very
-        last byte of the file panics (class 3);
+      - (repaired by the fix: commits in /repo, see known_findings.txt) readTGData now rejects tgLen < tgIDBytes
+        together with the sanity test; the make / [:7] panic outcomes are kept in the model BEHIND that test
+        and proved unreachable (WalScan_facts.read_tg_no_panic); wal.ReadStatus returns the read error before
+        indexing the (nil on EOF) buffer; an undecodable intact body is an error of parseTGData and skipped;
       - TXNINFO records carry no checksum; a CHECKPOINT/COMMITCOMPLETE record for an id present in tgData
         prunes every id <= it; the WAL-destination states are recorded but never consulted.
-    tgLen = 7: io.ToInt64(tgSerialized[:7]) reads one byte past the 7-byte allocation; that byte is
-    modelled as 0 (it only matters for a 7-byte body with a matching digest, whose ParseTGData panics anyway).
+    (tgLen = 7 can no longer reach io.ToInt64(tgSerialized[:7]); [tg_id_of] keeps its padding byte for that
+    unreachable case.)
     I/O errors other than EOF/short reads are not modelled.  Sizes are below 2^53 so [1000*size] does not wrap.
 
     [md5], the root directory and the outcome of replayTGData ([apply_ok]: did it return nil) are section
@@ -83,7 +83,8 @@ Definition read_tg (bs : list byte) (p : nat) : ev :=
   | RdOk d =>
       let tgLen := wrap I64 (le_val d) in
       let p1 := (p + Z.to_nat tgLenBytes)%nat in
-      if negb (tgLen <? safetyFactor * size_z bs) then EvTGBad p1
+      (* sanityCheckValue || tgLen < tgIDBytes (fix: a length below the id size is damage, like a too large one) *)
+      if negb (tgLen <? safetyFactor * size_z bs) || (tgLen <? tgIDBytes) then EvTGBad p1
       else if tgLen <? 0 then EvPanic 1
       else match file_read_full bs p1 tgLen with
            | None => EvStop true
@@ -115,12 +116,12 @@ Definition read_txn (bs : list byte) (p : nat) : ev :=
   | _ => EvStop false
   end.
 
-(** wal.ReadStatus at offset [p]: on EOF wal.Read returns a nil slice which is then indexed *)
+(** wal.ReadStatus at offset [p] (fix: the read error is returned before the buffer — nil on EOF — is indexed) *)
 Definition read_status (bs : list byte) (p : nat) : ev :=
   match wal_read bs p 10 with
   | RdOk _ => EvSkip (p + 10)
   | RdShort => EvStop false
-  | RdEOF => EvPanic 3
+  | RdEOF => EvStop false
   end.
 
 (** one iteration of the first-pass loop: readMessageID, then the switch *)
@@ -187,12 +188,13 @@ Fixpoint apply_sched (s : list (Z * list byte)) : rout :=
   match s with
   | [] => mkrout 0 []
   | (k, body) :: r =>
-      match ParseTGData body root with
+      match parseTGData body root with
       | Ok (tgid, wts) =>
           if (length wts =? 0)%nat || apply_ok tgid wts
           then let o := apply_sched r in mkrout (r_code o) ((tgid, length wts) :: r_applied o)
           else mkrout 1 []
-      | _ => mkrout 2 []
+      | Rejected => apply_sched r      (* fix: an undecodable body is logged and skipped *)
+      | Panic => mkrout 2 []
       end
   end.
 
